@@ -107,7 +107,7 @@ class VMX:
 
         for vm_setting, value in self.attr.items():
             for dev_class in dev_classes:
-                if vm_setting.startswith(dev_class):
+                if vm_setting.startswith(dev_class) and "." in vm_setting:
                     # Properties for disk devices are formatted as
                     # <dev_class><bus_id>:<disk_id>.<dev_property>
                     #
